@@ -59,7 +59,7 @@ func c11Call(form int, args string) (prelude, call, tpl string) {
 
 const c11Forms = 5
 
-const c11Uses = 8
+const c11Uses = 10
 
 func c11Use(u int, call, r string) (src, out string) {
 	switch u {
@@ -77,14 +77,22 @@ func c11Use(u int, call, r string) (src, out string) {
 		return "{% for q in [1, 2] %}{{ " + call + " }}{% endfor %}", r + r
 	case 6:
 		return "{% set c %}{{ " + call + " }}{% endset %}[{{ c }}]", "[" + r + "]"
-	default:
+	case 7:
 		return "{% if " + call + " %}T{% else %}F{% endif %}{{ " + call + "|up }}", "T" + strings.ToUpper(r)
+	case 8: // the result is a plain string value for whoever receives it (a callback that looks at the Go type)
+		return "{{ gotype(" + call + ") }}{% set r = " + call + " %}{{ gotype(r) }}{{ " + call + "|gotypef }}", "stringstringstring"
+	default: // many calls in one execution (no per-execution limit is hit by looping)
+		return "{% for q in 1..150 %}{{ " + call + " }}{% endfor %}", strings.Repeat(r, 150)
 	}
 }
 
 func c11Env(tpls map[string]string, log *[]string) *stick.Env {
 	env := stick.New(&stick.MemoryLoader{Templates: tpls})
 	env.Functions["name"] = func(ctx stick.Context, args ...stick.Value) stick.Value { return ctx.Name() }
+	env.Functions["gotype"] = func(ctx stick.Context, args ...stick.Value) stick.Value { return fmt.Sprintf("%T", args[0]) }
+	env.Filters["gotypef"] = func(ctx stick.Context, val stick.Value, args ...stick.Value) stick.Value {
+		return fmt.Sprintf("%T", val)
+	}
 	env.Functions["fn9"] = func(ctx stick.Context, args ...stick.Value) stick.Value { return "FN9" } // only ever shadowed by an import alias
 	env.Functions["rec"] = func(ctx stick.Context, args ...stick.Value) stick.Value {
 		var parts []string
@@ -394,7 +402,7 @@ func c11Run(c core.Case) core.Result {
 
 func c11Levels(tier string) []core.Level {
 	return []core.Level{
-		{Name: "macro with 0..4 parameters x call with 0..6 arguments x 5 call forms x 8 uses of the result", Gen: func(emit func(core.Case)) {
+		{Name: "macro with 0..4 parameters x call with 0..6 arguments x 5 call forms x 10 uses of the result", Gen: func(emit func(core.Case)) {
 			for p := 0; p <= 4; p++ {
 				for a := 0; a <= 6; a++ {
 					for form := 0; form < c11Forms; form++ {
@@ -459,7 +467,7 @@ func c11Levels(tier string) []core.Level {
 				}
 			}
 		}},
-		{Name: "a template calling its own macro through _self inside a block, rendered as parent (child with / without overrides, two levels; the call written in the child's overriding block), through embed (with / without overrides; the call written in the override block) and through include: 0..4 parameters x 0..6 arguments x 8 uses", Gen: func(emit func(core.Case)) {
+		{Name: "a template calling its own macro through _self inside a block, rendered as parent (child with / without overrides, two levels; the call written in the child's overriding block), through embed (with / without overrides; the call written in the override block) and through include: 0..4 parameters x 0..6 arguments x 10 uses", Gen: func(emit func(core.Case)) {
 			for p := 0; p <= 4; p++ {
 				for a := 0; a <= 6; a++ {
 					for how := 0; how < 8; how++ {
@@ -489,7 +497,7 @@ func init() {
 	core.Register(&core.Check{
 		ID:       "C11",
 		Category: "exploration",
-		Rule: "macro definitions with 0..4 parameters x calls with 0..6 distinct arguments x call form (_self, import alias, from-import, renamed from-import, from-import renamed to the name of a registered function) x use of the result (print, assign and print twice, concatenate, argument of another macro, argument of a recording function, in a 2-iteration loop, in a capture, as condition and filter input); argument lists built from caller variables named like the macro's own parameters; arguments that are themselves macro calls (with arguments, or zero-argument calls of macros whose bodies call further macros), in every position, evaluated after earlier calls in the same execution; macros calling macros through _self to depth 3 with every inner arity; a template calling its own macro through _self while rendered as a parent, through embed and through include; unknown macros of an imported set must fail. " +
+		Rule: "macro definitions with 0..4 parameters x calls with 0..6 distinct arguments x call form (_self, import alias, from-import, renamed from-import, from-import renamed to the name of a registered function) x use of the result (print, assign and print twice, concatenate, argument of another macro, argument of a recording function, in a 2-iteration loop, in a capture, as condition and filter input, handed to callbacks that report its Go type, 150 times in a loop); argument lists built from caller variables named like the macro's own parameters; arguments that are themselves macro calls (with arguments, or zero-argument calls of macros whose bodies call further macros), in every position, evaluated after earlier calls in the same execution; macros calling macros through _self to depth 3 with every inner arity; a template calling its own macro through _self while rendered as a parent, through embed and through include; unknown macros of an imported set must fail. " +
 			"Every macro body prints each parameter and Context.Name(). Expected output by construction (positional binding, missing = null, surplus ignored, name = defining template); the distinct-outcome count shows the four call forms agree modulo the template name. distinct = distinct configuration; non-trivial = all",
 		Assumptions: []string{"a macro called through an import does not itself refer to _self (stated divergence)", "macros are defined before use in a non-extending template"},
 		Levels:      c11Levels,
